@@ -198,6 +198,8 @@ class Impl:
         if k == 'setnstext':
             s.cssRules[op[1]].cssText = G.render_ns(op[2], op[3], op[4])
             return None
+        if k == 'insmedia':
+            return s.cssRules[op[1]].insertRule(G.render_sels(op[2]) + ' { x: 1 }', op[3])
         if k == 'rawdel':
             if op[2] == 'pop':
                 s.cssRules.pop(op[1])
@@ -539,7 +541,7 @@ class C15(Check):
             rpre = split_state(pre)['R']
             if op[0] == 'delrule' and len(sheet.cssRules) != (0 if rpre == '_' else rpre.count(';') + 1) - 1:
                 bad.append(("deleteRule removes exactly one rule", {'pre': pre, 'post': post}))
-        if op[0] in ('setsel', 'insstyle'):
+        if op[0] in ('setsel', 'insstyle', 'insmedia'):
             und = [p for p in G.named_prefixes(op) if p not in pre_map]
             if und and not outcome.startswith('err'):
                 bad.append(('a selector using an undeclared prefix is rejected', {'undeclared_prefixes': und}))
